@@ -585,10 +585,8 @@ def stale_explanation(st, what, ax, got):
     return None
 
 
-def classify_value(st, what, ax, got):
-    """Mechanism key of a value divergence, or None.  Predicate: container type with a value-change path that is known not to
-    reach the relative sources AND such a change was executed AND the observed value equals the documented sum evaluated
-    at an earlier reference (so the arithmetic is right, the reference is stale)."""
+def _stale_predicate(st):
+    """Container types with a value-change path that does not reach the relative sources, and that path was executed."""
     ct = st.sh.ctype
     key = STALE_KEYS.get(ct)
     if key is None:
@@ -600,18 +598,27 @@ def classify_value(st, what, ax, got):
     if ct in ("indexed_model", "xy_model") and not st.vc_kinds:
         return None
     # hist_model: the constructor itself leaves the values to be computed lazily, no value change needed
+    return key
+
+
+def classify_value(st, what, ax, got):
+    """Mechanism key of a value divergence, or None.  All of: (1) container type / executed value change as in
+    _stale_predicate; (2) the total covariance the object holds right now (re-reading the cached total changes nothing)
+    equals the documented sum with relative sources evaluated at an *earlier* value vector - the arithmetic is right,
+    the reference is stale; (3) the value that was read belongs to that covariance (so nothing else is wrong)."""
+    key = _stale_predicate(st)
+    if key is None:
+        return None
     try:
-        if stale_explanation(st, what, ax, got) is not None:
-            return key
+        real_cov = real_cov_now(st, ax)
+        if stale_explanation(st, "cov_mat", ax, real_cov) is None:
+            return None
+        sc = np.abs(real_cov)
         if what == "cov_mat_inverse":
-            # an inverse cannot be compared with an (often singular) stale total: explain the covariance it was computed
-            # from instead (re-reading the cached total does not change the state) and require the inverse to belong to it
-            real_cov = real_cov_now(st, ax)
-            if cmp_inv(got, real_cov, np.abs(real_cov))[0] != "bad" and stale_explanation(st, "cov_mat", ax, real_cov) is not None:
-                return key
+            return key if cmp_inv(got, real_cov, sc)[0] != "bad" else None
+        return key if consistent(what, got, real_cov, sc * 4) else None
     except Exception:
         return None
-    return None
 
 
 def real_cov_now(st, ax):
@@ -622,15 +629,8 @@ def real_cov_now(st, ax):
 def classify_restore(st, ax, old_cov, new_cov):
     """Two reads of one configuration differ: the known mechanism is that one of them was computed at a stale reference
     (invisible to the value oracle where the comparison had to be skipped, e.g. inverses of singular totals)."""
-    ct = st.sh.ctype
-    key = STALE_KEYS.get(ct)
+    key = _stale_predicate(st)
     if key is None or old_cov is None or new_cov is None:
-        return None
-    if ct == "xy" and "set_data" not in st.vc_kinds:
-        return None
-    if ct == "hist" and not any(k in ("fill", "rebin") for k in st.vc_kinds):
-        return None
-    if ct in ("indexed_model", "xy_model") and not st.vc_kinds:
         return None
     try:
         for c in (old_cov, new_cov):
